@@ -58,6 +58,8 @@ package meta
 //@     invariant forall j int :: 0 <= j && j <= rangeindex ==> !si_contain(sgi.Shards[j].Min, sgi.Shards[j].Max, shardKey)
 
 // The group returned for a timestamp contains it, is live, has the requested engine type.
+// (also C16: CreateShardGroup is a no-op only if this lookup finds the live group that already contains the time)
+//@ prop C11 C16
 //@ func (*RetentionPolicyInfo).ShardGroupByTimestampAndEngineType
 //@   requires rpi != nil
 //@   ensures result != nil ==> (exists k int :: 0 <= k && k < len(rpi.ShardGroups) && result == rpi.ShardGroups[k])
@@ -75,6 +77,7 @@ package meta
 //@     decreases i + 1
 
 // Completeness of the time-range selection: every live group overlapping [tmin,tmax] is returned.
+//@ prop C11
 //@ func (*RetentionPolicyInfo).ShardGroupsByTimeRange
 //@   requires rpi != nil
 //@   ensures forall k int :: 0 <= k && k < len(rpi.ShardGroups) ==> \
@@ -511,7 +514,8 @@ package meta
 //@   assigns nothing
 
 // ---- restore from a snapshot: every collection present in the protobuf is restored
-//@ prop C15
+// (also C13: the per-name version counters must survive a restore, or a re-created measurement reuses the dropped physical name)
+//@ prop C15 C13
 //@ func (*RetentionPolicyInfo).unmarshal
 //@   requires rpi != nil && pb != nil
 //@   ghost sMst bool = false
@@ -534,6 +538,7 @@ package meta
 //@   ensures len(old(pb.ShardGroups)) > 0 ==> sSg
 //@   ensures len(old(pb.IndexGroups)) > 0 ==> sIg
 //@   ensures len(old(pb.Subscriptions)) > 0 ==> sSub
+//@ prop C15
 //@ func (*MeasurementInfo).unmarshal
 //@   trusted_assigns msti
 //@ func (*ShardGroupInfo).unmarshal
